@@ -9,6 +9,7 @@ STATIC_THEOREMS = [
     'SnapraidVerif.Props.C08.c08_counter_write',
     'SnapraidVerif.Props.C08.io_error_never_protects_with_limit',
     'SnapraidVerif.Props.C08.c08_counter_limit',
+    'SnapraidVerif.Props.C08.read_ok_means_no_error',
 ]
 
 def parse_failed_call(logpath):
